@@ -16,7 +16,7 @@ func (c10) Size(tier string) Size {
 	if tier == "thorough" {
 		return Size{Batches: 32, Cases: 12000}
 	}
-	return Size{Batches: 8, Cases: 1200}
+	return Size{Batches: 16, Cases: 2500}
 }
 func (c10) Rule() string {
 	return "case = (kind, nullable) + a pair (resource value, filter value) drawn from the boundary pools (equal, adjacent, extreme, shared prefixes, nil on either side) evaluated under EVERY operator (= != < <= > >= in has and unknown ones) on a soft resource AND on a struct-backed one holding the same values, plus relationship leaves and random and/or trees (depth <= 8, chains to depth 200 in thorough). Oracle 1: my own evaluator (math/big, bytes.Compare, instants; nil equals only nil and is never ordered; bool and to-many never ordered; unknown operator false; empty and = true, empty or = false). Oracle 2: laws on the library's own answers (trichotomy, != is not =, <= is < or =, antisymmetry under swapping sides, soft == wrapped). Also: degenerate leaves (zero filter, operator without field, 'AND'/'Or'/'IN'/'HAS' and padded operators = unknown operators), one built *Filter node used at several places of one tree (and(g,g), or(g,g), and(g,or(g,x)), or(and(g,x),and(g,y))), re-evaluation of a built filter after its leaf values were changed in place, filter value being the very object the resource returned. Directed: pool x pool x operator product per kind (first 40 pool values per kind in quick, the whole pool in thorough). Non-trivial = distinct (kind, op, value pair) with a non-nil pair, or a tree with >= 2 leaves."
